@@ -24,8 +24,9 @@ RowOfN(nd) == Row(nd.args.h)
 
 (* ---------------------------------- C12 ---------------------------------- *)
 C12OwnerOnly(nd)   == nd.a = "Own" => OwnerOnly(Row(nd.args.msg), nd.args.holder, nd.args.signer, nd.res.ok)
-C12Victim(nd)      == nd.a = "Own" => VictimUntouched(nd.args.holder, nd.args.signer, nd.st.vpre, nd.st.vpost)
-C12Rejected(nd)    == nd.a \in {"Own", "Priv", "Kill"} => RejectedChangesNothing(nd.res.ok, nd.st.pre, nd.st.post)
+C12Victim(nd)      == /\ nd.a = "Own" => VictimUntouched(nd.args.holder, nd.args.signer, nd.st.vpre, nd.st.vpost)
+                      /\ nd.a = "Open" => OpenVictimsUntouched(nd.st.vpre, nd.st.vpost)
+C12Rejected(nd)    == nd.a \in {"Own", "Open", "Priv", "Kill"} => RejectedChangesNothing(nd.res.ok, nd.st.pre, nd.st.post)
 C12Privileged(nd)  == nd.a = "Priv" => PrivilegedOnlyDesignated(nd.args.chain, nd.args.sender, nd.res.ok)
 C12PrivRole(nd)    == nd.a = "Priv" => PrivilegedRole(nd.args.v, nd.args.chain, nd.args.sender, nd.res.ok)
 C12PrivElse(nd)    == nd.a = "Priv" => PrivilegedElsewhere(nd.args.chain, nd.args.sender, nd.res.ok)
@@ -109,6 +110,10 @@ PrivAccepted(nd) == nd.a = "Priv" /\ nd.args.chain \in MainTest /\ nd.res.ok /\ 
 PrivElse(nd)     == nd.a = "Priv" /\ nd.args.chain \notin MainTest /\ nd.args.sender # "admin" /\ RefOk(nd)
 KillRej(nd)      == nd.a = "Kill" /\ ~nd.res.ok
 KillAcc(nd)      == nd.a = "Kill" /\ nd.res.ok
+OpenOk(nd)       == nd.a = "Open" /\ nd.res.ok /\ ~Same(nd)
+OpenHoleOk(nd)   == OpenOk(nd) /\ nd.args.hole /\ nd.st.holed        \* an older position of that kind really was removed first
+OpenWitnessed == {Nd(i).args.msg : i \in {j \in 1..NLog : OpenHoleOk(Nd(j))}}
+HoleyState(nd)   == nd.a = "State" /\ nd.args.k < 0
 KillRotatedAcc(nd) == nd.a = "Kill" /\ nd.args.adm = "rotated" /\ nd.res.ok          \* the rotation really took effect
 KillEmptyRej(nd) == nd.a = "Kill" /\ nd.args.adm = "empty" /\ ~nd.res.ok
 PrivPayload(nd)  == nd.a = "Priv" /\ nd.args.chain \in MainTest /\ nd.args.pay = "designated" /\ nd.args.sender # nd.args.des /\ RefOk(nd)
@@ -125,6 +130,7 @@ CtlRef(nd)       == nd.a = "Ctl" /\ nd.args.ref = nd.id
 CtlFree(nd)      == nd.a = "Ctl" /\ ~MustReject(RowOfN(nd), nd.args.prod, CtlOfN(nd)) /\ nd.res.ok
 HookBreaker(nd)  == nd.a = "Hook" /\ nd.args.breaker /\ nd.args.ref > 0 /\ HookActed(Log[nd.args.ref])
 HookPrice(nd)    == nd.a = "Hook" /\ HookPriceReq(nd.args.hook, HookCtl(nd)) /\ ~nd.args.breaker /\ nd.args.ref > 0 /\ HookActed(Log[nd.args.ref])
+HookPeerBusy(nd) == nd.a = "Hook" /\ nd.args.breaker /\ nd.st.peerNew > 0     \* controlled app idle-checked while the other app of the same loop was processed
 HookRefActs(nd)  == nd.a = "Hook" /\ nd.args.ref = nd.id /\ HookActed(nd)
 HookRef(nd)      == nd.a = "Hook" /\ nd.args.ref = nd.id
 IsState(nd)      == nd.a = "State"
@@ -148,11 +154,12 @@ Stats == PrintT(<<"STATS", [nodes |-> NLog, states |-> Cnt(IsState), own |-> Cnt
            ownScopeWitness |-> Cnt(OwnScopeWitness), ctlNoSnapshot |-> Cnt(CtlNoSnapshot),
            ctlPriceInactive |-> Cnt(CtlPriceInactive), ctlPriceMissing |-> Cnt(CtlPriceMissingM),
            privGuarded |-> Cnt(PrivGuarded), privAccepted |-> Cnt(PrivAccepted), privElsewhere |-> Cnt(PrivElse),
-           killRejected |-> Cnt(KillRej), killAccepted |-> Cnt(KillAcc), killRotatedAccepted |-> Cnt(KillRotatedAcc),
+           openOk |-> Cnt(OpenOk), openAfterHole |-> Cnt(OpenHoleOk), openMsgs |-> Cardinality(OpenMsgs), openMsgsWitnessed |-> Cardinality(OpenWitnessed),
+           holeyStates |-> Cnt(HoleyState), killRejected |-> Cnt(KillRej), killAccepted |-> Cnt(KillAcc), killRotatedAccepted |-> Cnt(KillRotatedAcc),
            killEmptyRejected |-> Cnt(KillEmptyRej), privPayloadNamesDesignated |-> Cnt(PrivPayload),
            ctlBreaker |-> Cnt(CtlBreaker), ctlShutdown |-> Cnt(CtlShutdown), ctlCoolOff |-> Cnt(CtlCoolOff),
            ctlCoolWitness |-> Cnt(CtlCoolWitness), ctlPrice |-> Cnt(CtlPrice), ctlRef |-> Cnt(CtlRef), ctlRefOk |-> Cnt(CtlRefOk),
-           ctlFreeOk |-> Cnt(CtlFree), hookBreaker |-> Cnt(HookBreaker), hookPrice |-> Cnt(HookPrice), hookRef |-> Cnt(HookRef), hookRefActs |-> Cnt(HookRefActs),
+           ctlFreeOk |-> Cnt(CtlFree), hookBreaker |-> Cnt(HookBreaker), hookPeerBusy |-> Cnt(HookPeerBusy), hookPrice |-> Cnt(HookPrice), hookRef |-> Cnt(HookRef), hookRefActs |-> Cnt(HookRefActs),
            noteOkNoEffect |-> Cnt(OkNoEffect), noteRejectedAfterWrites |-> Cnt(RejectedDirty),
            aucPrice |-> Cnt(AucPrice), aucRefMoved |-> Cnt(AucRefMoved),
            aucSteps |-> Cardinality(AuctionSteps), aucStepsWitnessed |-> Cardinality(AucWitnessed),
